@@ -67,6 +67,20 @@ def _assert_repo(ctx):
     if not f.startswith(root + os.sep):
         print(f"HARNESS-ERROR signac imported from {f}, expected under {root}")
         sys.exit(2)
+    own_thread_pools()
+
+
+def own_thread_pools():
+    """Free-running pool threads are a source of nondeterminism the explorers do not control: inside the checking process
+    signac's thread pools run their tasks one after the other, in order (engine T explores the interleavings separately)."""
+    from .engine_t import SerialPool
+    for name in ("signac.project", "signac.sync"):
+        try:
+            mod = importlib.import_module(name)
+        except Exception:  # noqa
+            continue
+        if hasattr(mod, "ThreadPool"):
+            mod.ThreadPool = SerialPool
 
 
 def write_evidence(ctx, report, wall, n_unlisted):
